@@ -159,6 +159,16 @@ func (g *everyGen) node(depth int, isProp bool) *model.Node {
 	default:
 		n = g.scalar()
 	}
+	if !g.o.NoUnions && len(n.Rules) == 0 && ((n.Kind == model.KObject && len(n.Props) == 0) || (n.Kind == model.KArray && len(n.Items) == 0)) && r.Chance(1, 2) {
+		// empty container with an or-rule of built-in kinds that admits its own kind
+		own, other := "object", "array"
+		if n.Kind == model.KArray {
+			own, other = other, own
+		}
+		items := []model.OrItem{model.OrSet(model.RStr("type", own)), model.OrSet(model.RStr("type", mon.Pick(r, []string{"string", "integer", other})))}
+		mon.Shuffle(r, items)
+		n.Rules = append(n.Rules, model.ROr(items...))
+	}
 	if isProp && r.Chance(1, 4) {
 		n.Rules = append(n.Rules, model.RBool("optional", r.Chance(4, 5)))
 	}
